@@ -63,3 +63,53 @@ Definition f_keyed_max :=
   FA (AReduceKeyed c_max (SMap (fun p => VP (VN (kf p mod 2)) (vsnd p)) (SSrc 0))).
 
 Close Scope N_scope.
+
+(* ------------------------------------------------------------------ tick-scoped corpus (C30) *)
+From HV Require Import Hydro.ModelTick.
+Open Scope N_scope.
+
+Definition c_first (a _n : val) : val := a.                      (* reduce(q!(|_, _| {})) *)
+Definition g_first (s item : val) : val * gen := (s, GReturn item).
+Definition g_limit2 (c item : val) : val * gen :=                 (* Stream::limit(q!(2)) *)
+  if n_of c =? 2 then (c, GBreak)
+  else let c' := VN (n_of c + 1) in (c', if n_of c' =? 2 then GReturn item else GYield item).
+
+Definition t_fold := BFold (VN 0) (vn2 (fun a x => (a * 2 + x) mod 1009)) (BBatch 0).
+Definition t_reduce := BReduce (vn2 (fun a x => (a * 3 + x) mod 1009)) (BBatch 0).
+Definition t_count := BFold (VN 0) c_count (BBatch 0).
+Definition t_max := BReduce c_max (BBatch 0).
+Definition t_min := BReduce c_min (BBatch 0).
+Definition t_first := BReduce c_first (BGen VU g_first (BBatch 0)).
+Definition t_last := BReduce c_last (BBatch 0).
+Definition t_limit := BGen (VN 0) g_limit2 (BBatch 0).
+Definition t_sort := BSort (BBatch 0).
+Definition t_enumerate := BEnumerate (BBatch 0).
+Definition t_unique := BUnique (BBatch 0).
+Definition t_chain := BChain (BBatch 0) (BMap (vn1 (fun x => x + 100)) (BBatch 1)).
+Definition t_join := BJoin (BBatch 0) (BBatch 1).
+Definition t_cross := BCross (BBatch 0) (BBatch 1).
+Definition t_anti_join := BAntiJoin (BBatch 0) (BBatch 1).
+Definition t_cross_singleton :=
+  BMap (fun p => p) (BCrossSingleton (BBatch 0) (BFold (VN 0) c_count (BBatch 1))).
+Definition t_fold_keyed := BFoldKeyed (VN 1) (vn2 (fun a v => (a * 2 + v) mod 1009)) (BBatch 0).
+Definition t_reduce_keyed := BReduceKeyed (vn2 (fun a v => (a * 3 + v) mod 1009)) (BBatch 0).
+Definition t_defer := BDefer (BBatch 0).
+Definition t_defer_chain :=
+  BChain (BMap (vn1 (fun x => x * 2)) (BBatch 0)) (BDefer (BDefer (BBatch 1))).
+Definition t_defer_count :=
+  BFold (VN 0) c_count (BDefer (BFilter (fun v => negb (n_of v =? 0)) (BBatch 0))).
+Definition t_sort_enumerate_fold :=
+  BFold (VN 0) c_plus
+    (BMap (fun p => VN ((kf p + 1) * vf p)) (BEnumerate (BSort (BUnique (BBatch 0))))).
+(* a left TotalOrder stream joined with a bounded NoOrder right side: typed TotalOrder by
+   `PreserveOrderIfBounded` (the flow compiles with embedded_output, which demands TotalOrder) *)
+Definition t_join_half_unord := BJoin (BBatch 0) (BWeaken (BBatch 1)).
+
+(* tick cycle: carry.chain(batch).unique().sort(), completed for the next tick *)
+Definition t_cycle_body (carry : list val) (e : env) : list val := vsort (uniq (carry ++ e 0%nat)).
+Definition t_cycle_emit : list string :=
+  ["for_each"; "chain"; "defer_tick_lazy"; "sort"; "source_stream"; "unique<'tick>"]%string.
+Definition chk_toks (expected observed : list string) : N :=
+  if toks_eqb expected observed then 0 else 1.
+
+Close Scope N_scope.
